@@ -477,6 +477,59 @@ impl ProgFamily for MirroredFiles {
     }
 }
 
+
+/// A definition whose scoped name is also the name of a nested module declared in ANOTHER file (`struct B` in
+/// `module A`, and `module A::B`): every spelling of a reference to the definition designates the definition, whichever
+/// file comes first.
+pub struct ModuleNamedLikeADefinition;
+impl ProgFamily for ModuleNamedLikeADefinition {
+    fn name(&self) -> String {
+        "module-named-like-a-definition/5 kinds of definition A::B next to a file that declares module A::B x 4 spellings of the reference x 3 use positions x both file orders x 2 layouts".into()
+    }
+    fn len(&self) -> u64 {
+        5 * 4 * 3 * 2 * 2
+    }
+    fn get(&self, idx: u64) -> PCase {
+        let kind = idx % 5;
+        let spelling = ["B", "A::B", "::A::B", "B"][((idx / 5) % 4) as usize];
+        let usepos = (idx / 20) % 3;
+        let swapped = (idx / 60) % 2 == 1;
+        let newline = (idx / 120) % 2 == 1;
+        let mut a = MFile::module("A");
+        a.defs.push(match kind {
+            0 => st("B", vec![MField::new("q", MType::prim("int32"))]),
+            1 => en("B", Some(MType::prim("uint8")), vec![enumerator("E0")]),
+            2 => custom("B"),
+            3 => alias("B", MType::seq(MType::prim("string"))),
+            _ => iface("B", vec![], vec![op("o", vec![], MRet::None)]),
+        });
+        let t = MType::named(spelling);
+        // (an interface is used as a base, everything else as a type)
+        a.defs.push(if kind == 4 {
+            iface("User", vec![t], vec![])
+        } else {
+            match usepos {
+                0 => st("User", vec![MField::new("b", t.clone()), MField::new("c", MType::seq(t).opt())]),
+                1 => iface("User", vec![], vec![op("o", vec![MParam::new("p", t.clone())], MRet::Single { tag: None, stream: false, ty: MType::dict(MType::prim("int32"), t) })]),
+                _ => alias("User", t),
+            }
+        });
+        let mut nested = MFile::module("A::B");
+        nested.defs.push(st("Inner", vec![MField::new("x", MType::prim("bool"))]));
+        // the fourth spelling: the reference is written in a third module of the same root
+        let mut program = vec![a, nested];
+        if (idx / 5) % 4 == 3 {
+            let mut c = MFile::module("A::C");
+            c.defs.push(st("FromSibling", vec![MField::new("inner", MType::named("B::Inner")), MField::new("viaroot", MType::named("A::B::Inner"))]));
+            program.push(c);
+        }
+        if swapped {
+            program.reverse();
+        }
+        PCase { program, layout: Layout::uniform(if newline { Sep::Newline } else { Sep::Space }, Commas::None), label: format!("kind {kind}, spelling {spelling}, use {usepos}, swapped {swapped}"), may_warn: false }
+    }
+}
+
 pub fn program_families(tier: &str) -> Vec<Box<dyn ProgFamily>> {
     let quick = tier == "quick";
     let mut v: Vec<Box<dyn ProgFamily>> = vec![
@@ -494,6 +547,7 @@ pub fn program_families(tier: &str) -> Vec<Box<dyn ProgFamily>> {
     v.push(Box::new(Sequences { depth: 3, layouts: six_layouts(), full_product: !quick }));
     v.push(Box::new(Vocabulary::new()));
     v.push(Box::new(MirroredFiles));
+    v.push(Box::new(ModuleNamedLikeADefinition));
     if !quick {
         // all 40^4 sequences of four constructs, each once (layout and module scope rotate)
         v.push(Box::new(Sequences { depth: 4, layouts: six_layouts(), full_product: false }));
